@@ -182,25 +182,25 @@ Qed.
 
 (** * The cascade never panics (any state, any fuel) *)
 
+Lemma search_ids_npo pattern now : forall ids s acc, npo (snd (search_ids s ids pattern now acc)).
+Proof.
+  induction ids as [|id r IH]; intros s acc; cbn [search_ids]; [exact I|].
+  destruct (alookup id (st_facts s)) as [fact|]; [|apply IH].
+  destruct (expire s id fact now) as [s1 ex]. destruct ex; [apply IH|].
+  pose proof (core_match_npo pattern fact []) as Hm.
+  destruct (core_match pattern fact []) as [[|b bss]|e|w|]; try apply IH; try exact I. exact Hm.
+Qed.
+
+Lemma search_state_npo s pattern now : npo (snd (search_state s pattern now)).
+Proof.
+  unfold search_state. destruct (st_kind s); [|apply search_ids_npo].
+  pose proof (ti_search_npo (st_tindex s) (extract_terms pattern)) as Ht.
+  destruct (ti_search (st_tindex s) (extract_terms pattern)); try exact I; [apply search_ids_npo|exact Ht].
+Qed.
+
 Section NP.
   Variable rr : state -> string -> Z -> state * outcome bool.
   Hypothesis rr_np : forall s id now, npo (snd (rr s id now)).
-
-  Lemma search_ids_npo pattern now : forall ids s acc, npo (snd (search_ids rr s ids pattern now acc)).
-  Proof.
-    induction ids as [|id r IH]; intros s acc; cbn [search_ids]; [exact I|].
-    destruct (alookup id (st_facts s)) as [fact|]; [|apply IH].
-    destruct (expire rr s id fact now) as [[s1 ex] err]. destruct (expire_stops (st_kind s) err); [exact I|]. destruct ex; [apply IH|].
-    pose proof (core_match_npo pattern fact []) as Hm.
-    destruct (core_match pattern fact []) as [[|b bss]|e|w|]; try apply IH; try exact I. exact Hm.
-  Qed.
-
-  Lemma search_state_npo s pattern now : npo (snd (search_state rr s pattern now)).
-  Proof.
-    unfold search_state. destruct (st_kind s); [|apply search_ids_npo].
-    pose proof (ti_search_npo (st_tindex s) (extract_terms pattern)) as Ht.
-    destruct (ti_search (st_tindex s) (extract_terms pattern)); try exact I; [apply search_ids_npo|exact Ht].
-  Qed.
 
   Lemma rem_list_npo skip now : forall ids s, npo (snd (rem_list rr s ids skip now)).
   Proof.
@@ -212,7 +212,7 @@ Section NP.
   Lemma delete_dependencies_npo s id now : npo (snd (delete_dependencies rr s id now)).
   Proof.
     unfold delete_dependencies. pose proof (search_state_npo s (dw_pattern id) now) as H.
-    destruct (search_state rr s (dw_pattern id) now) as [s1 [found|e|w|]]; cbn [snd] in *; auto.
+    destruct (search_state s (dw_pattern id) now) as [s1 [found|e|w|]]; cbn [snd] in *; auto.
     apply rem_list_npo.
   Qed.
 
@@ -241,10 +241,10 @@ Proof. apply rem_fuel_npo. Qed.
 
 (** * Groundness is kept by removals and reads *)
 
-Lemma st_ground_amb s a : st_ground s -> st_ground (set_amb s a).
+Lemma st_ground_pending s (a : list string) : st_ground s -> st_ground (set_pending s a).
 Proof. auto. Qed.
 
-Lemma st_store_ground_amb s a : st_store_ground s -> st_store_ground (set_amb s a).
+Lemma st_store_ground_pending s (a : list string) : st_store_ground s -> st_store_ground (set_pending s a).
 Proof. auto. Qed.
 
 Lemma st_ground_head s id : st_ground s -> st_ground (fst (rem_head s id)).
@@ -271,35 +271,40 @@ Proof.
       cbn [fst st_store set_store set_facts]; [exact H|apply ground_list_aremove; exact H].
 Qed.
 
-Definition st_ground_rem := st_rem_inv st_ground st_ground_amb st_ground_head.
-Definition st_ground_rem_rec := st_rem_rec_inv st_ground st_ground_amb st_ground_head.
-Definition st_ground_search := st_search_inv st_ground st_ground_amb st_ground_head.
-Definition st_ground_get := st_get_inv st_ground st_ground_amb st_ground_head.
-Definition st_ground_Rem := st_Rem_inv st_ground st_ground_amb st_ground_head.
-Definition st_ground_find_rules := st_find_rules_inv st_ground st_ground_amb st_ground_head.
-Definition st_store_ground_rem := st_rem_inv st_store_ground st_store_ground_amb st_store_ground_head.
-Definition st_store_ground_search := st_search_inv st_store_ground st_store_ground_amb st_store_ground_head.
-Definition st_store_ground_get := st_get_inv st_store_ground st_store_ground_amb st_store_ground_head.
-Definition st_store_ground_Rem := st_Rem_inv st_store_ground st_store_ground_amb st_store_ground_head.
+Definition st_ground_rem := st_rem_inv st_ground st_ground_pending st_ground_head.
+Definition st_ground_rem_rec := st_rem_rec_inv st_ground st_ground_pending st_ground_head.
+Definition st_ground_search := st_search_inv st_ground st_ground_pending st_ground_head.
+Definition st_ground_get := st_get_inv st_ground st_ground_pending st_ground_head.
+Definition st_ground_Rem := st_Rem_inv st_ground st_ground_pending st_ground_head.
+Definition st_ground_find_rules := st_find_rules_inv st_ground st_ground_pending st_ground_head.
+Definition st_store_ground_rem := st_rem_inv st_store_ground st_store_ground_pending st_store_ground_head.
+Definition st_store_ground_search := st_search_inv st_store_ground st_store_ground_pending st_store_ground_head.
+Definition st_store_ground_get := st_get_inv st_store_ground st_store_ground_pending st_store_ground_head.
+Definition st_store_ground_Rem := st_Rem_inv st_store_ground st_store_ground_pending st_store_ground_head.
 Definition st_store_ground_find_rules :=
-  st_find_rules_inv st_store_ground st_store_ground_amb st_store_ground_head.
+  st_find_rules_inv st_store_ground st_store_ground_pending st_store_ground_head.
 
-Lemma expire_ground s id fact now : st_ground s -> st_ground (fst (fst (expire st_rem_rec s id fact now))).
+Lemma expire_ground s id fact now : st_ground s -> st_ground (fst (expire s id fact now)).
 Proof.
-  apply (expire_R (fun s s' => st_ground s -> st_ground s') (fun s H => H)
-           (fun a b c H1 H2 H => H2 (H1 H)) st_ground_amb st_rem_rec st_ground_rem_rec).
+  apply (expire_R (fun s s' => st_ground s -> st_ground s') (fun s H => H) st_ground_pending).
 Qed.
+
+(** the purge always answers: a public entry point is bad only if its
+    operation proper is *)
+Lemma with_purge_obad {A} (r : state * outcome A) now :
+  obad (snd (with_purge r now)) = obad (snd r).
+Proof. rewrite snd_with_purge. reflexivity. Qed.
 
 (** * Search *)
 
 Lemma search_ids_obad pattern now :
   (forall fact, ground fact = true -> obad (core_match pattern fact []) = false) ->
-  forall ids s acc, st_ground s -> obad (snd (search_ids st_rem_rec s ids pattern now acc)) = false.
+  forall ids s acc, st_ground s -> obad (snd (search_ids s ids pattern now acc)) = false.
 Proof.
   intros Hm. induction ids as [|id r IH]; intros s acc Hg; cbn [search_ids]; [reflexivity|].
   destruct (alookup id (st_facts s)) as [fact|] eqn:El; [|apply IH; exact Hg].
   pose proof (expire_ground s id fact now Hg) as Hg1.
-  destruct (expire st_rem_rec s id fact now) as [[s1 ex] err]. destruct (expire_stops (st_kind s) err); [reflexivity|]. cbn [fst] in Hg1.
+  destruct (expire s id fact now) as [s1 ex]. cbn [fst] in Hg1.
   destruct ex; [apply IH; exact Hg1|].
   pose proof (Hm fact (ground_list_lookup id fact _ Hg El)) as Hf.
   destruct (core_match pattern fact []) as [[|b bss]|e|w|]; cbn in Hf; try discriminate;
@@ -311,7 +316,7 @@ Proof. intros Hd. eapply okr_obad. apply core_match_okr; [exact Hd|reflexivity].
 
 Lemma st_search_obad s p now : st_ground s -> obad (snd (st_search s p now)) = false.
 Proof.
-  intros Hg. unfold st_search, search_state.
+  intros Hg. unfold st_search. rewrite with_purge_obad. unfold search_state.
   destruct (st_kind s).
   - pose proof (ti_search_npo (st_tindex s) (extract_terms p)) as H1.
     pose proof (ti_search_not_oof (st_tindex s) (extract_terms p)) as H2.
@@ -325,15 +330,14 @@ Qed.
 
 Lemma st_get_obad s id now : obad (snd (st_get s id now)) = false.
 Proof.
-  unfold st_get. destruct (alookup id (st_facts s)) as [fact|]; [|reflexivity].
-  destruct (fact_expired fact now); [|reflexivity].
-  pose proof (st_rem_obad s id now) as H.
-  destruct (st_rem s id now) as [s1 [b|e|w|]]; cbn in *; auto.
+  unfold st_get. rewrite with_purge_obad. unfold get_body.
+  destruct (alookup id (st_facts s)) as [fact|]; [|reflexivity].
+  destruct (expire s id fact now) as [s1 [|]]; reflexivity.
 Qed.
 
 Lemma st_Rem_obad s id now : obad (snd (st_Rem s id now)) = false.
 Proof.
-  unfold st_Rem. destruct (st_hooks s); [|apply st_rem_obad].
+  unfold st_Rem. rewrite with_purge_obad. destruct (st_hooks s); [|apply st_rem_obad].
   pose proof (st_get_obad s id now) as H.
   destruct (st_get s id now) as [s1 [b|e|w|]]; cbn in *; auto. apply st_rem_obad.
 Qed.
@@ -458,7 +462,7 @@ Lemma find_ids_idx_obad now : forall ids s acc, obad (snd (find_ids_idx s ids no
 Proof.
   induction ids as [|id r IH]; intros s acc; cbn [find_ids_idx]; [reflexivity|].
   destruct (alookup id (st_facts s)) as [fact|]; [|reflexivity].
-  destruct (expire st_rem_rec s id fact now) as [[s1 ex] err]. destruct ex; [apply IH|].
+  destruct (expire s id fact now) as [s1 ex]. destruct ex; [apply IH|].
   pose proof (extract_rule_anyr fact true) as He.
   destruct (extract_rule fact true) as [[body|]|e|w|]; try contradiction; try reflexivity. apply IH.
 Qed.
@@ -469,7 +473,7 @@ Proof.
   intros Hev. induction ids as [|id r IH]; intros s acc; cbn [find_ids_lin]; [reflexivity|].
   destruct (alookup id (st_facts s)) as [fact|]; [|apply IH].
   destruct (jget "rule" fact) as [rule|]; [|apply IH].
-  destruct (expire st_rem_rec s id fact now) as [[s1 ex] err]. destruct err; [reflexivity|]. destruct ex; [apply IH|].
+  destruct (expire s id fact now) as [s1 ex]. destruct ex; [apply IH|].
   destruct rule as [| | | | |rm]; try apply IH.
   destruct (alookup "when" rm) as [[| | | | |w]|]; try apply IH.
   match goal with |- context [core_match ?p ev []] =>
@@ -477,30 +481,32 @@ Proof.
     cbn in Hm; try discriminate; try apply IH. reflexivity.
 Qed.
 
+Lemma do_find_rules_obad s ev now : ground ev = true -> obad (snd (do_find_rules s ev now)) = false.
+Proof.
+  intros Hev. unfold do_find_rules. rewrite with_purge_obad.
+  destruct (st_kind s).
+  - pose proof (pi_search_obad (st_pindex s) ev) as Hp.
+    destruct (pi_search (st_pindex s) ev); cbn in Hp; try discriminate; try reflexivity.
+    apply find_ids_idx_obad.
+  - apply find_ids_lin_obad. exact Hev.
+Qed.
+
 Lemma st_find_rules_obad s ev now : ground ev = true -> obad (snd (st_find_rules s ev now)) = false.
 Proof.
-  intros Hev. unfold st_find_rules.
-  match goal with
-  | |- obad (snd (let '(a, b) := ?X in _)) = false =>
-      assert (H : obad (snd X) = false); [|destruct X as [s1 res]]
-  end.
-  { destruct (st_kind s).
-    - pose proof (pi_search_obad (st_pindex s) ev) as Hp.
-      destruct (pi_search (st_pindex s) ev); cbn in Hp; try discriminate; try reflexivity.
-      apply find_ids_idx_obad.
-    - apply find_ids_lin_obad. exact Hev. }
+  intros Hev. unfold st_find_rules. pose proof (do_find_rules_obad s ev now Hev) as H.
+  destruct (do_find_rules s ev now) as [s1 res].
   cbn [snd] in H. destruct res as [l|e|w|]; cbn in H; try discriminate; reflexivity.
 Qed.
 
 (** * A search with a GROUND pattern is total on any state *)
 
-Lemma search_ids_obad_all rr pattern now :
+Lemma search_ids_obad_all pattern now :
   (forall fact, obad (core_match pattern fact []) = false) ->
-  forall ids s acc, obad (snd (search_ids rr s ids pattern now acc)) = false.
+  forall ids s acc, obad (snd (search_ids s ids pattern now acc)) = false.
 Proof.
   intros Hm. induction ids as [|id r IH]; intros s acc; cbn [search_ids]; [reflexivity|].
   destruct (alookup id (st_facts s)) as [fact|]; [|apply IH].
-  destruct (expire rr s id fact now) as [[s1 ex] err]. destruct (expire_stops (st_kind s) err); [reflexivity|]. destruct ex; [apply IH|].
+  destruct (expire s id fact now) as [s1 ex]. destruct ex; [apply IH|].
   pose proof (Hm fact) as Hf.
   destruct (core_match pattern fact []) as [[|b bss]|e|w|]; cbn in Hf; try discriminate;
     try apply IH. reflexivity.
@@ -508,7 +514,7 @@ Qed.
 
 Lemma st_search_ground_pattern_obad s p now : ground p = true -> obad (snd (st_search s p now)) = false.
 Proof.
-  intros Hg. unfold st_search, search_state.
+  intros Hg. unfold st_search. rewrite with_purge_obad. unfold search_state.
   destruct (st_kind s).
   - pose proof (ti_search_npo (st_tindex s) (extract_terms p)) as H1.
     pose proof (ti_search_not_oof (st_tindex s) (extract_terms p)) as H2.
